@@ -106,6 +106,14 @@ def rule_b(prog, rep):
         rep.violation('C06.b', 'Lock::release:retain', f.loc, 'the queue filter is not `c != client_id`', key='C06.b/release/retain')
 
 
+def _is_was_holder(b, nd):
+    """the first component of `lock.release(..)` (identified by provenance, not by the local's name)"""
+    if not isinstance(nd, dict) or nd.get('k') != 'path' or nd.get('res') != 'local':
+        return False
+    o = b.origins(nd)
+    return bool(o) and all('release' in x and x.endswith('[0]') for x in o)
+
+
 def rule_c(prog, rep):
     rep.rule('C06.c', 'T5', 'grant tables: Store::lock: free -> install + record + Ok; own -> Ok; foreign -> Err(KeyIsLocked) and no '
              'change. Lock::release: holder & waiter -> (true, Some(new holder)); holder & none -> (true, None); non-holder -> '
@@ -206,14 +214,14 @@ def rule_c(prog, rep):
     if len(dn) == 1:
         g = [it for it in guards(dn[0][1] + (dn[0][0],)) if it[0] == 'if']
         # under: was_holder (else-branch of `!was_holder`) and new_holder.is_none()
-        wh = any(it[2] is False and strip_not(it[1])[0].get('name') == 'was_holder' and strip_not(it[1])[1] is False for it in g)
+        wh = any(it[2] is False and _is_was_holder(ub, strip_not(it[1])[0]) and strip_not(it[1])[1] is False for it in g)
         nh = any(it[2] is True and it[1].get('k') == 'call' and short(callee(it[1])) == 'is_none' and
                  any('release' in x and x.endswith('[1]') for x in ub.origins(it[1]['args'][0])) for it in g)
         cond_ok = wh and nh
     if not cond_ok:
         res.append('lock node is not deleted exactly when the holder released and nobody waits')
     errs = [x for x, _ in crate.walk_fn(u) if x.get('k') == 'return' and ctor_name((x.get('e') or {}).get('args', [{}])[0] if (x.get('e') or {}).get('k') == 'call' else {})]
-    foreign = [nd for nd, a in crate.walk_fn(u) if nd.get('k') == 'if' and strip_not(nd['cond'])[0].get('name') == 'was_holder']
+    foreign = [nd for nd, a in crate.walk_fn(u) if nd.get('k') == 'if' and _is_was_holder(ub, strip_not(nd['cond'])[0])]
     if not foreign or not any(ctor_name(x) and 'KeyIsLocked' in ctor_name(x) for x, _ in walk(foreign[0]['then'])):
         res.append('foreign release is not refused with KeyIsLocked')
     if res:
